@@ -58,6 +58,8 @@ INJECT_CRATE = {
     "chess_base/src/lib.rs": ["shim.rs"],
 }
 GUARD = "any(kani, owlchess_verif_replay)"
+# harness files that use items of harness files of OTHER modules
+HARNESS_FILE_DEPS = {"board_harness_b.rs": ["zobrist_harness_b.rs", "zobrist_harness.rs"]}
 
 
 def log(*a):
@@ -146,6 +148,8 @@ class Build:
         self.restrict = None
         if restrict:
             r = set(restrict)
+            for f in list(r):
+                r.update(HARNESS_FILE_DEPS.get(f, ()))
             for f in list(r):
                 m = re.match(r"(.*_harness)_\w+\.rs$", f)
                 if m:
